@@ -216,8 +216,18 @@ def clause_props(scratch, unit, err):
     the unit belongs to C04 (totality), otherwise for every property of the unit."""
     allp = list(unit['props'])
     msg = err['message']
+    SAFETY = ('possible arithmetic underflow/overflow', 'possible division by zero', 'possible bit shift', 'index out of bounds')
+    text = (err.get('text') or '')
+    is_safety = any(m in msg for m in SAFETY) or ('precondition not satisfied' in msg and 'lemma' not in text and 'proof' not in text)
+    if is_safety:
+        # a reachable panic: breaks totality (C04) and every "for every input the result is ..." property of the unit, but
+        # not the pure frame / provenance properties
+        keep = [p for p in allp if p not in ('C11', 'C16', 'C17', 'C18')]
+        return keep or allp
     if 'postcondition' not in msg and 'invariant' not in msg:
-        return ['C04'] if 'C04' in allp else allp
+        # a failed proof step (assert / lemma precondition inside a proof block): it speaks for the clauses it supports;
+        # resolved by the caller (inherits the properties of the unit's failed postconditions, else all)
+        return None
     line = err.get('clause_line')
     if not line:
         return allp
@@ -282,7 +292,14 @@ def decide(prop, tier, seed, cfg, scratch, index, spec_dir, contracts_dir, evide
             proved.append(u)
         elif v['verdict'] == 'failed':
             # only the obligations that speak for THIS property count against it
-            mine = [e for e in v['errors'] if e['kind'] == 'failed' and prop in clause_props(scratch, u, e)]
+            cps = [(e, clause_props(scratch, u, e)) for e in v['errors'] if e['kind'] == 'failed']
+            post_props = set(p for e, ps in cps if ps is not None and 'postcondition' in e['message'] for p in ps)
+            mine = []
+            for e, ps in cps:
+                if ps is None:
+                    ps = sorted(post_props) if post_props else list(u['props'])
+                if prop in ps:
+                    mine.append(e)
             other = [e for e in v['errors'] if e['kind'] != 'failed']
             if mine:
                 v['errors'] = mine + other
